@@ -2,6 +2,7 @@ package main
 
 import (
 	"fmt"
+	"github.com/mmcloughlin/avo/build"
 	"github.com/mmcloughlin/avo/operand"
 	"github.com/mmcloughlin/avo/x86"
 	"go/ast"
@@ -594,10 +595,88 @@ func c09(c *Ctx) {
 		o.Plan.Stats["refused_end_to_end_with_cfg_error"] = len(errRows)
 	}
 	multiFunctionFiles(o, progs, "cfg", 60)
+	builderLabels(c)
 	o.Stage(files...)
 	o.Plan.Rule = "directed skeletons (duplicate/consecutive/trailing labels, self-loops, jumps into/out of loops, branch last, unreachable blocks, non-label branches) + random node sequences over {label, comment, real and synthetic instructions, conditional/unconditional branches, RET}, 25% from a malformed stream; non-trivial = at least one branch and more than two nodes; distinct by node text"
 	o.Plan.Stats["programs"] = len(progs)
 	o.Plan.Stats["outcome_kinds"] = errKinds
 	o.Plan.Stats["features"] = tagCount
 	o.Plan.Samples = []any{progs[0].Text(), progs[len(progs)/2].Text(), progs[len(progs)-1].Text()}
+}
+
+// builderLabels: the same rules seen from the builder, where a generator declares labels: a name declared
+// twice in one function is refused by the time the function is compiled (never resolved silently to one of
+// the two places); the same name in two functions of a file is fine; a reference to an undeclared name is refused.
+func builderLabels(c *Ctx) {
+	o := c.Out
+	type tc struct {
+		desc   string
+		build  func(ctx *build.Context)
+		refuse bool
+	}
+	loop := func(ctx *build.Context, name string) {
+		r := ctx.GP64()
+		ctx.MOVQ(operand.U32(4), r)
+		ctx.Label(name)
+		ctx.DECQ(r)
+		ctx.JNE(operand.LabelRef(name))
+	}
+	fn := func(ctx *build.Context, n string) {
+		ctx.Function(n)
+		ctx.SignatureExpr("func()")
+	}
+	tcs := []tc{
+		{"two loops in one function, both labelled loop", func(ctx *build.Context) { fn(ctx, "f"); loop(ctx, "loop"); loop(ctx, "loop"); ctx.RET() }, true},
+		{"two loops labelled loop and loop2", func(ctx *build.Context) { fn(ctx, "f"); loop(ctx, "loop"); loop(ctx, "loop2"); ctx.RET() }, false},
+		{"the label loop in each of two functions", func(ctx *build.Context) {
+			fn(ctx, "f")
+			loop(ctx, "loop")
+			ctx.RET()
+			fn(ctx, "g")
+			loop(ctx, "loop")
+			ctx.RET()
+		}, false},
+		{"a label declared twice in a row", func(ctx *build.Context) { fn(ctx, "f"); ctx.Label("a"); ctx.Label("a"); ctx.RET() }, true},
+		{"a label declared again after the code that jumps to it", func(ctx *build.Context) {
+			fn(ctx, "f")
+			ctx.Label("top")
+			ctx.NOP()
+			ctx.JMP(operand.LabelRef("top"))
+			ctx.Label("top")
+			ctx.RET()
+		}, true},
+		{"a jump to a label that is never declared", func(ctx *build.Context) { fn(ctx, "f"); ctx.JMP(operand.LabelRef("nowhere")); ctx.RET() }, true},
+		{"a label declared twice in the second function only", func(ctx *build.Context) {
+			fn(ctx, "f")
+			loop(ctx, "loop")
+			ctx.RET()
+			fn(ctx, "g")
+			loop(ctx, "loop")
+			loop(ctx, "loop")
+			ctx.RET()
+		}, true},
+	}
+	for _, t := range tcs {
+		ctx := build.NewContext()
+		t.build(ctx)
+		idx := o.AddCase(Case{Key: "cfg:builder-labels", Desc: t.desc, Input: map[string]any{"program": t.desc}, Nontrivial: true})
+		f, err := ctx.Result()
+		if err == nil {
+			func() {
+				defer func() {
+					if r := recover(); r != nil {
+						err = fmt.Errorf("panic: %v", r)
+					}
+				}()
+				err = pass.Compile.Execute(f)
+			}()
+		}
+		if (err != nil) != t.refuse {
+			nl := 0
+			for _, fn := range f.Functions() {
+				nl += len(fn.Labels())
+			}
+			o.Plan.GoViolations = append(o.Plan.GoViolations, GoViolation{Key: "cfg:builder-labels", Desc: fmt.Sprintf("case %d: %s: built and compiled with error %v (the file holds %d label nodes); it must be %s", idx, t.desc, err, nl, map[bool]string{true: "refused", false: "accepted"}[t.refuse]), Replay: map[string]any{"program": t.desc}})
+		}
+	}
 }
